@@ -660,6 +660,11 @@ def check_table(ctx, name, f, loop, tab):
         ext = {'paths': len(sums), 'signature': sorted(map(str, got))}
         if got == want:
             run.ok('R-DEG', f, role, f.nodes[loop.hid].lineno, extracted=ext, expected=sorted(map(str, want)))
+        elif name == 'encode' and any(g[0] == 'raise' for g in got) and not any(g[0] == 'raise' for g in want):
+            run.refute('R-DEG', f, role, f.nodes[loop.hid].lineno,
+                       "encode can raise %s at a vertex of out-degree %d in %s mode: the only documented failures are a vertex "
+                       "without arcs (and out-degree 3 in fast mode)" % (sorted(g[1] for g in got if g[0] == 'raise'), deg, loop.mode),
+                       extracted=ext, expected=sorted(map(str, want)), inputs='messages long enough to reach the new raise')
         elif any(g[0] == 'exit' and g[1] in ('break', 'return') for g in got) and name == 'decode':
             run.refute('R-DEG', f, role, f.nodes[loop.hid].lineno,
                        "the loop over the strand can be left early (%s) at out-degree %d: the symbols after that point are "
